@@ -13,6 +13,11 @@
 (*   rebalance  Broker.rebalance as called by step(): the request it got   *)
 (*              and the account after it, the two Context snapshots        *)
 (*   step       what step() returned (reward, done) and the record length  *)
+(*   disc       a contract's discontinuation delivered to the observers    *)
+(*   abort      step() raised: the last line of the trace                  *)
+(* Quotes may lose one side (NaN) and contracts may be discontinued, held  *)
+(* or not: a step then fails iff the specification's valuation or          *)
+(* rebalance fails at that point.                                          *)
 (* Every line is recomputed with the operators of LedgerOps; `verdict`     *)
 (* names the clauses whose logged value differs:                           *)
 (*   pos mrg nlv cash trades  the account (C01, C05), as in BrokerTrace    *)
@@ -28,6 +33,12 @@
 (*   done     step() reports done exactly on the episode's last timestep    *)
 (*            (the last of the data, or start + length - 1)         (C15)   *)
 (*   reward   RewardPnL = NLV now - NLV before the last execution  (C07)   *)
+(*   loud     a rebalance went through although the specification refuses *)
+(*            it (an open or targeted position has no usable quote) (C13)   *)
+(*   atomic   a refused rebalance left positions and record as they were   *)
+(*                                                                  (C13)   *)
+(*   spurious step() failed although every valuation and the rebalance of  *)
+(*            the specification go through                     (C03 C12)   *)
 (*   target   after the execution every named contract is held in the     *)
 (*            requested number of lots (fractional requests)       (C03)   *)
 (* One initial state per trace; every line is consumed.                    *)
@@ -89,6 +100,14 @@ Step ==
                      \o Bad("stamp", phase = "pre" /\ ~(o.t > prevG /\ o.t <= prevG + lat))
                      \o Bad("stamp", phase = "post" /\ ~(o.t > prevG + lat /\ o.t <= nextT))
                 /\ UNCHANGED <<queue, lastPre, nEntries, phase, idx>>
+         [] o.op = "disc" ->
+              \E s \in {DiscontinueF(st, o.c)} :
+                /\ st' = s
+                /\ verdict' = Account(o, s, FALSE)
+                /\ UNCHANGED <<queue, lastPre, nEntries, phase, idx>>
+         [] o.op = "abort" ->
+              /\ verdict' = Bad("spurious", phase \in {"idle", "pre"} \/ (phase = "post" /\ ValueF(st, TRUE).out = "ok"))
+              /\ UNCHANGED <<st, queue, lastPre, nEntries, phase, idx>>
          [] o.op = "submit" ->
               /\ queue' = Append(queue, [c \in DOMAIN o.alloc |-> o.alloc[c]])
               /\ phase' = "pre"
@@ -100,12 +119,15 @@ Step ==
                 /\ queue' = IF queue = <<>> THEN queue ELSE Tail(queue)
                 /\ lastPre' = IF r.out = "ok" THEN r.pre ELSE lastPre
                 /\ nEntries' = IF r.out = "ok" THEN nEntries + 1 ELSE nEntries
-                /\ phase' = "post"
+                /\ phase' = IF r.out = "ok" THEN "post" ELSE "failed"
                 /\ UNCHANGED idx
                 /\ verdict' =
                      Bad("order", phase # "pre")
                      \o Bad("fifo", queue = <<>> \/ (queue # <<>> /\ ~SameAlloc(Head(queue), o.alloc)))
-                     \o Bad("out", o.out # r.out)
+                     \o Bad("loud", o.out = "ok" /\ r.out = "error")
+                     \o Bad("spurious", o.out = "error" /\ r.out = "ok")
+                     \o Bad("out", o.out # r.out /\ "error" \notin {o.out, r.out})
+                     \o Bad("atomic", o.out = "error" /\ (o.entries # nEntries \/ \E c \in C : o.pos[c] # st.pos[c]))
                      \o (IF o.out = r.out /\ r.out = "ok"
                          THEN Account(o, r.st, TRUE)
                               \o Bad("trades", DOMAIN o.trades # DOMAIN r.trades \/ \E c \in DOMAIN r.trades : o.trades[c] # r.trades[c])
